@@ -71,7 +71,7 @@ fn norm(trace: &[Ev], drop_deliveries: bool) -> Vec<Ev> {
 }
 
 pub fn judge_pair(h: &History) -> Result<(u32, bool), Failure> {
-    let (_, recs_p) = run_history(h).map_err(|e| Failure::new("harness", h.json(), e))?;
+    let (mut world_p, recs_p) = run_history(h).map_err(|e| Failure::new("harness", h.json(), e))?;
     if recs_p.iter().any(|r| r.outcome.is_panic() || r.deliveries.iter().any(|d| matches!(d.verdict, Verdict::SizeDontCare))) {
         return Ok((0, false));
     }
@@ -80,7 +80,7 @@ pub fn judge_pair(h: &History) -> Result<(u32, bool), Failure> {
         return Ok((0, false));
     }
     let Some((t, oversize_at)) = twin(h, &recs_p) else { return Ok((0, false)) };
-    let (_, recs_t) = run_history(&t).map_err(|e| Failure::new("harness", t.json(), e))?;
+    let (mut world_t, recs_t) = run_history(&t).map_err(|e| Failure::new("harness", t.json(), e))?;
     let case = || json!({"kind": "pair", "with_rejected_frames": h.json()});
     // "something to lose" before the first rejected delivery?
     let mut something = false;
@@ -146,6 +146,13 @@ pub fn judge_pair(h: &History) -> Result<(u32, bool), Failure> {
         }
         let _ = which;
     }
+    // what an application that collects lazily still finds in the downlink queue at the end
+    if !world_p.dead && !world_t.dead {
+        let (qa, qb) = (world_p.front.take_downlinks(), world_t.front.take_downlinks());
+        if qa != qb {
+            return Err(Failure::new("non-interference", case(), format!("after the last step the downlink queue holds {qa:02x?}; on the twin that never received the rejected frame(s) it holds {qb:02x?}\nwith frames: {}", render(&recs_p, 6))).with_fp("queued-payloads"));
+        }
+    }
     Ok((n_rejected, something))
 }
 
@@ -172,14 +179,14 @@ pub fn history_strategy() -> impl Strategy<Value = History> {
     (c08::history_strategy(), proptest::collection::vec(any::<u16>(), 1..=5)).prop_flat_map(|(h, positions)| {
         let reg = Reg::from_name(h.cfg.region.name()).unwrap();
         let n = positions.len();
-        (Just(h), Just(positions), proptest::collection::vec((rejected_recipe(reg), 0u8..5, any::<bool>()), n..=n), proptest::collection::vec((any::<u16>(), prop_oneof![(1u16..70).prop_map(Step::Silence), any::<bool>().prop_map(Step::SetAdr), gen::join_plan_strategy(reg).prop_map(Step::Join)]), 0..3))
+        (Just(h), Just(positions), proptest::collection::vec((rejected_recipe(reg), 0u8..5, any::<bool>()), n..=n), proptest::collection::vec((any::<u16>(), prop_oneof![2 => (1u16..70).prop_map(Step::Silence), 2 => any::<bool>().prop_map(Step::SetAdr), 2 => gen::join_plan_strategy(reg).prop_map(Step::Join), 3 => prop_oneof![3 => Just(false), 1 => Just(true)].prop_map(Step::SetDrain)]), 0..3))
     })
     .prop_map(|(mut h, positions, inserts, extra)| {
         for (pos, s) in extra {
             let at = (pos as usize * (h.steps.len() + 1)) >> 16;
             h.steps.insert(at, s);
         }
-        let class_c = h.cfg.front == FrontKind::AsyncClassC;
+        let class_c = matches!(h.cfg.front, FrontKind::AsyncClassC | FrontKind::AsyncQ1);
         // insert rejected frames at receive opportunities
         for (pos, (recipe, slot, front)) in positions.iter().zip(inserts) {
             let targets: Vec<usize> = h.steps.iter().enumerate().filter(|(_, s)| matches!(s, Step::Send { .. } | Step::Join(_) | Step::RxcListen(_))).map(|(i, _)| i).collect();
@@ -216,7 +223,7 @@ pub fn history_strategy() -> impl Strategy<Value = History> {
 }
 
 pub fn run(ctx: &mut Ctx) {
-    ctx.rule = "proptest pairs (H+, H): H+ is a history of accepted MAC-bearing downlinks, sends (also on port 0), confirmed downlinks, silences, ADR toggles and (re-)joins into which 1..5 frames from {random bytes, single-bit flips of authentic frames (header/FOpts/payload/MIC), authentic frames of another session, replays, stale/far-future counters with valid MIC, wrong-epoch MIC, oversize frames, JoinAccepts under a wrong key / bit-flipped / while joined} are inserted at RX1, RX2, Class C gaps and idle listening; the reference codec decides which delivered frames are rejected; H is H+ re-run with exactly those frames removed (an oversize frame in a Class A window also removes the rest of that receive procedure). Twin devices with identical configuration and RNG streams must agree on every uplink (bytes, power, RF config), every radio/timer request, every response, delivered payloads, session JSON and MAC snapshot after every transaction. Non-trivial: a rejected frame that is structurally a data frame / JoinAccept delivered while answers were pending, an ACK was owed or the ADR count was > 0; distinct by hash".into();
+    ctx.rule = "proptest pairs (H+, H): H+ is a history of accepted MAC-bearing downlinks, sends (also on port 0), confirmed downlinks, silences, ADR toggles and (re-)joins into which 1..5 frames from {random bytes, single-bit flips of authentic frames (header/FOpts/payload/MIC), authentic frames of another session, replays, stale/far-future counters with valid MIC, wrong-epoch MIC, oversize frames, JoinAccepts under a wrong key / bit-flipped / while joined} are inserted at RX1, RX2, Class C gaps and idle listening; the reference codec decides which delivered frames are rejected; H is H+ re-run with exactly those frames removed (an oversize frame in a Class A window also removes the rest of that receive procedure). Twin devices with identical configuration and RNG streams must agree on every uplink (bytes, power, RF config), every radio/timer request, every response, delivered payloads (also those an application that does not collect its downlinks finds in the queue at the end: SetDrain steps, queue depth 4 and the crate's default 1), session JSON and MAC snapshot after every transaction. Non-trivial: a rejected frame that is structurally a data frame / JoinAccept delivered while answers were pending, an ACK was owed or the ADR count was > 0; distinct by hash".into();
     ctx.assumptions = vec![
         "async receive windows are single-shot: a rejected frame replaces the time-out of that window; in nb windows and Class C gaps frames are additional".into(),
         "for a transaction in which an oversize frame ended the receive procedure, only the uplink, the response, the following transactions and the states are compared".into(),
